@@ -2,14 +2,14 @@
 # lib/teeth_all.sh — the whole catch matrix: every stored seeded change and the revert of every "fix:" commit of /repo is applied to
 # a scratch worktree under /tmp and the registered quick check(s) of its property are run against it (lib/teeth.sh). One line per
 # (change, check) goes to seeded/TEETH.txt; a seeded change's lines also go to seeded/<id>/teeth.log. Takes about an hour.
-cd /verif
+cd "$(dirname "$0")/.."; V=$(pwd); TAG=${TEETH_TAG:-}
 OUT=seeded/TEETH.txt; : > $OUT.tmp
 for d in seeded/C*-*/; do
   id=$(basename $d); p=${id%%-*}
-  lib/teeth.sh sd-$id /verif/$d/patch.diff $p 2>&1 | grep "^sd-" | tee $d/teeth.log >> $OUT.tmp
+  lib/teeth.sh sd$TAG-$id $V/$d/patch.diff $p 2>&1 | grep "^sd" | tee $d/teeth.log >> $OUT.tmp
 done
 while read c props; do
-  lib/teeth.sh rv-$c -R:$c $props 2>&1 | grep "^rv-" >> $OUT.tmp
+  lib/teeth.sh rv$TAG-$c -R:$c $props 2>&1 | grep "^rv" >> $OUT.tmp
 done <<LIST
 334a3dd C14
 2cde87e C01 C05
